@@ -191,6 +191,17 @@ Example C12_load_nonvacuous :
   = Some (mkIndex [(3, mkNode 1 [[1; 4]; []]); (1, mkNode 0 [[3]])]%Z [1; 3]%Z (3%Z, 1) [] [3; 1]%Z).
 Proof. vm_compute. reflexivity. Qed.
 
+(* the runner accepts any maximal-layer node as repaired entry point, also when the model's own
+   tie-break lands on the recorded entry (1) and the implementation's on another node (3) *)
+Example C12_load_entry_tiebreak :
+  check_load ((2, 4, (1, 1), [1; 2; 3], [(1, Some (1, 1, 2, true, [[2; 3]; [3]], true));
+                                          (3, Some (3, 1, 2, true, [[1; 2]; [1]], true))]),
+              Some ([1; 3], (3, 1), [(1, 1, [[3]; [3]]); (3, 1, [[1]; [1]])]))%Z = true
+  /\ check_load ((2, 4, (1, 1), [1; 2; 3], [(1, Some (1, 1, 2, true, [[2; 3]; [3]], true));
+                                          (3, Some (3, 0, 2, true, [[1; 2]], true))]),
+              Some ([1; 3], (3, 0), [(1, 1, [[3]; [3]]); (3, 0, [[1]])]))%Z = false.
+Proof. vm_compute. split; reflexivity. Qed.
+
 Example C12_remove_nonvacuous :
   fst (run_remove ([(1, 1, [[2; 3]; [3]]); (2, 0, [[1; 3]]); (3, 1, [[1; 2]; [1]])], [1; 2; 3], (1, 1), 1)%Z)
   = mkIndex [(3, mkNode 1 [[2]; []]); (2, mkNode 0 [[3]])]%Z [2; 3]%Z (3%Z, 1) [1]%Z [3; 2]%Z.
